@@ -48,7 +48,7 @@ inline int64_t gen_int(Src &s) {
     }
     case 3: return (int32_t)s.u32();
     case 4: return (int64_t)s.u64();
-    case 5: return s.u8() % 10;
+    case 5: return s.u8() % 48;   // small values: also the byte offsets of tokens in small documents
     case 6: {
         static const int64_t sp[] = {0, -1, 1, INT64_MIN, INT64_MAX, INT32_MIN, INT32_MAX, INT16_MIN, INT16_MAX, INT8_MIN, INT8_MAX,
                                      128, -129, 32768, -32769, 2147483648LL, -2147483649LL, 255, 256, 65535, 65536, 4294967295LL, 4294967296LL};
@@ -182,13 +182,18 @@ inline Bytes gen_name(Src &s, unsigned style, bool big) {
     switch (style % 8 == 7 ? 4 : style % 4) {
     case 4: {  // long common stem + a short distinguishing tail; the stem length is drawn per name, so that siblings are
                // prefix-related with length differences of 1..200 and (with `big`) of 1..32771 around the 15/16-bit boundaries
-        static const uint32_t pl_small[] = {100, 126, 127, 128, 129, 254, 255, 256, 257, 300};
+        static const uint32_t pl_small[] = {100, 126, 127, 128, 129, 254, 255, 256, 257, 300, 3, 7, 7, 15, 31, 63};  // + word-size stems: names of 4/8/16/32/64 bytes after a 1-byte tail
         static const uint32_t pl_huge[] = {32766, 32767, 32768, 32769, 40000, 65530, 65531, 65535, 65536, 65537};
         uint8_t ls = s.u8();
-        size_t len = (big && (ls & 0x80)) ? pl_huge[ls % 10] : pl_small[ls % 10];
+        size_t len = (big && (ls & 0x80)) ? pl_huge[ls % 10] : pl_small[ls % 16];
         n.assign(len, (uint8_t)('k'));
         unsigned tail = s.u8() % 3;
-        for (unsigned i = 0; i < tail; i++) n.push_back(kNameAlphabet[s.u8() % sizeof kNameAlphabet]);
+        if (len < 100) tail = 1 + tail % 2;
+        for (unsigned i = 0; i < tail; i++) {
+            uint8_t tb = s.u8();
+            // tails: the collision alphabet, decimal digits, or any byte (siblings then differ in single bits of their last byte)
+            n.push_back((ls & 0x40) ? ((tb & 1) ? (uint8_t)('0' + (tb >> 1) % 10) : (uint8_t)(tb >> 1 | (tb << 7))) : kNameAlphabet[tb % sizeof kNameAlphabet]);
+        }
         break;
     }
     case 0: {  // collision-rich alphabet, length 0..3
